@@ -346,6 +346,73 @@ def h_acquire(pre, mode):
     return ['acquire', 'negotiating', sa.state.name]
 
 
+def h_acquire_two_locals(pre):
+    """two connections to the SAME peer from two local addresses (the configuration is keyed by the address pair): an ACQUIRE whose source is the second
+    local address, with an arbitrary policy index, while the first connection has no IKE_SA / one waiting for IKE_SA_INIT / an established one: the
+    index of the second connection's entry is negotiated from the second local address, by an IKE_SA of that address pair; any other index is ignored"""
+    from symx import core
+    eng = core.engine()
+    m, ik, ic, cfm, x = MODS['message'], MODS['ikesa'], MODS['ikesacontroller'], MODS['configuration'], MODS['xfrm']
+    S = ik.IkeSa.State
+    alt = ip_address('192.168.0.4')
+    cd = world.conf_dict()
+    cd['bob']['protect'] = [dict(cd['bob']['protect'][0], index=7, lifetime=111)]
+    cd['bob_alt'] = dict(cd['bob'], my_addr=str(alt), protect=[dict(cd['bob']['protect'][0], index=13, lifetime=222)])
+    cd['alice_alt'] = dict(cd['alice'], peer_addr=str(alt), protect=[dict(cd['alice']['protect'][0], index=14)])
+    world.ENV.reset()
+    conf = cfm.Configuration([world.IP1, world.IP2, alt], cd)
+    E = world.Endpoint('B', None)
+    c14.with_socket()
+    with E:
+        ctl = ic.IkeSaController(my_addrs=[world.IP2, alt], configuration=conf)
+    E.obj = ctl
+    if pre != 'fresh':
+        d1 = acquire_datagram(eng, world.IP2, world.IP1, world.IP2, world.IP1, 23, 2000, 6, 7 << 3 | 1)
+        h1, m1, a1 = c14.MX.Xfrm.parse_message(d1)
+        with E:
+            r1, _, _ = ctl.process_acquire(m1, a1)
+        if r1 is None:
+            return ['n/a', 'first connection did not start']
+        if pre == 'first_established':
+            a = ik.IkeSa(is_initiator=False, peer_spi=ctl.ike_sas[0].my_spi, configuration=conf.get_ike_configuration(world.IP1, world.IP2), my_addr=world.IP1, peer_addr=world.IP2)
+            A = world.Endpoint('A', a)
+            d, to_a = r1, True
+            for _ in range(8):
+                if d is None:
+                    break
+                if to_a:
+                    d = A.call(a.process_message, d)
+                else:
+                    with E:
+                        d = ctl.dispatch_message(d, world.IP2, world.IP1)
+                to_a = not to_a
+            if ctl.ike_sas[0].state != S.ESTABLISHED:
+                return ['n/a', 'first connection did not establish']
+    n_before = len(ctl.ike_sas)
+    index = eng.sym_int('policy_index', 0, 0xFFFFFFFF)
+    sport, dport = eng.sym_int('sport', 0, 65535), eng.sym_int('dport', 0, 65535)
+    data = acquire_datagram(eng, alt, world.IP1, alt, world.IP1, sport, dport, 6, index)
+    header, msg, attributes = c14.MX.Xfrm.parse_message(data)
+    with E:
+        req, my_addr, peer_addr = ctl.process_acquire(msg, attributes)
+    P = eng.prove
+    known = (index >> 3) == 13
+    if req is None:
+        P(core.sym_not(known), f'{pre}: the ACQUIRE of the second connection to the same peer (its own policy index, its own local address) was not negotiated')
+        if len(ctl.ike_sas) != n_before:
+            return {'class': ['two_locals'], 'violation': 'an ignored ACQUIRE changed the table'}
+        return ['two_locals', 'ignored']
+    P(known, f'{pre}: an ACQUIRE for an index that is not an entry of the connection (second local address -> peer) started a negotiation')
+    if my_addr != alt or peer_addr != world.IP1:
+        return {'class': ['two_locals'], 'violation': f'{pre}: the negotiation leaves from {my_addr} instead of the local address of the connection ({alt})'}
+    used = [e for e in ctl.ike_sas if e.my_addr == alt and e.peer_addr == world.IP1]
+    if len(used) != 1 or len(ctl.ike_sas) != n_before + 1:
+        return {'class': ['two_locals'], 'violation': f'{pre}: {len(used)} IKE_SA(s) for the second address pair, {len(ctl.ike_sas)} in the table'}
+    if used[0].creating_child_sa.lifetime != 222:
+        return {'class': ['two_locals'], 'violation': 'the CHILD_SA being created is not the entry of the second connection'}
+    return ['two_locals', 'negotiating']
+
+
 def c14_choice(eng, name, options):
     c = eng.sym_int(name, 0, len(options) - 1)
     j = eng.concretize(c, 0, len(options) - 1) if not isinstance(c, int) else c
@@ -411,6 +478,9 @@ def build_instances(tier):
         inst.append(Instance(f'random indices conns={nc} entries={ne}', h_random_index, (nc, ne), native=nat(h_random_index)))
     for pre in ('busy_dpd', 'busy_new_child'):
         inst.append(Instance(f'acquire {pre}', h_acquire, (pre, 1), native=nat(h_acquire), must_reach=[('queued', lambda o: o == ['acquire', 'queued'])]))
+    for pre in ('fresh', 'first_in_flight', 'first_established'):
+        inst.append(Instance(f'acquire for a second connection to the same peer from another local address, {pre}', h_acquire_two_locals, (pre,), native=nat(h_acquire_two_locals),
+                             must_reach=[('negotiating', lambda o: o == ['two_locals', 'negotiating']), ('ignored', lambda o: o == ['two_locals', 'ignored'])]))
     for pre in ('fresh', 'established', 'in_flight', 'half_open_responder', 'rekeyed_old'):
         for mode in (0, 1):
             inst.append(Instance(f'acquire {pre} mode={mode}', h_acquire, (pre, mode), native=nat(h_acquire),
